@@ -234,6 +234,27 @@ HARNESS = r'''
     #[kani::proof] #[kani::unwind(9)] #[kani::stub(alloc::fmt::format, crate::vx_stub_format)] fn path_independent_without_prices_1_tx_failing() { check_paths(false, 1, [1, 0]); }
     #[kani::proof] #[kani::unwind(9)] #[kani::stub(alloc::fmt::format, crate::vx_stub_format)] fn path_independent_without_prices_2_txs_ok() { check_paths(false, 2, [0, 0]); }
     #[kani::proof] #[kani::unwind(9)] #[kani::stub(alloc::fmt::format, crate::vx_stub_format)] fn path_independent_without_prices_2_txs_one_failing() { check_paths(false, 2, [0, 1]); }
+    // ---- a proposal rejected in an earlier round leaves nothing behind: the decided block of the next round is processed from the committed state ----
+    #[kani::proof] #[kani::unwind(9)] #[kani::stub(alloc::fmt::format, crate::vx_stub_format)]
+    fn rejected_earlier_round_does_not_leak_into_the_decided_block() {
+        let (pp, fb) = any_block(1);
+        kani::assume(pp.txs.eci.is_none());
+        let die: bool = kani::any();
+        // round 0: the same transactions under commitments that do not match them -- rejected, but only after the transactions were executed
+        let mut bad = pp; bad.hash = Hash::Sha256(kani::any()); bad.txs.roots = (kani::any(), kani::any());
+        kani::assume(bad.txs.roots.0 != pp.txs.roots.0 || bad.txs.roots.1 != pp.txs.roots.1);
+        let mut validator = new_app([0, 0], false, die);
+        let r0 = validator.process_proposal(bad, Storage);
+        assert!(r0.is_err());
+        // round 1: the honest proposal is accepted and finalized exactly as on a node that never saw round 0
+        let r1 = validator.process_proposal(pp, Storage);
+        assert!(r1.is_ok());
+        let rv = validator.finalize_block(fb, Storage);
+        let mut syncing = new_app([0, 0], false, die);
+        let rs = syncing.finalize_block(fb, Storage);
+        match (&rv, &rs) { (Ok(a), Ok(b)) => assert!(same_response(a, b)), _ => assert!(false) }
+        std::mem::forget(rv); std::mem::forget(rs); std::mem::forget(r0); std::mem::forget(r1);
+    }
     // ---- blocks carrying oracle prices: same obligation (K2) ---------------------------------------------------------------------------------------
     #[kani::proof] #[kani::unwind(9)] #[kani::stub(alloc::fmt::format, crate::vx_stub_format)] fn path_independent_with_prices_1_tx_ok() { check_paths(true, 1, [0, 0]); }
     #[kani::proof] #[kani::unwind(9)] #[kani::stub(alloc::fmt::format, crate::vx_stub_format)]
@@ -261,10 +282,11 @@ UNIT = dict(
         dict(name="path_independent_without_prices_1_tx_failing", obligation="App::process_proposal+finalize_block::ensures#validator-path==syncing-path[no extended commit info, 1 tx failing non-fatally]", bounded="blocks of exactly 1 user transaction", tier="thorough"),
         dict(name="path_independent_without_prices_2_txs_ok", obligation="App::process_proposal+finalize_block::ensures#validator-path==syncing-path[no extended commit info, 2 txs executing]", bounded="blocks of exactly 2 user transactions", tier="thorough"),
         dict(name="path_independent_without_prices_2_txs_one_failing", obligation="App::process_proposal+finalize_block::ensures#validator-path==syncing-path[no extended commit info, 2 txs, second failing non-fatally]", bounded="blocks of exactly 2 user transactions", tier="thorough"),
+        dict(name="rejected_earlier_round_does_not_leak_into_the_decided_block", obligation="App::process_proposal::ensures#a-rejected-proposal-leaves-no-state-behind(next round == syncing path)", bounded="blocks of exactly 1 user transaction"),
         dict(name="path_independent_with_prices_1_tx_ok", obligation="App::process_proposal+finalize_block::ensures#validator-path==syncing-path[block with oracle prices, 1 tx executing]", bounded="blocks of exactly 1 user transaction", finding="K2", only_for=["C05"]),
         dict(name="canary_validator_path_reaches_finalize", expect="fail"),
     ],
-    harness_timeout=1500,
+    harness_timeout=3000,
     assumptions=["the application state is modelled as the ordered log of state-changing steps (price application, pre-execution, each applied transaction, post-execution) since the last commit; two paths agree iff they apply the same steps in the same order — nothing is assumed to commute; the app hash is a function of that log",
                  "stand-ins (trusted): ExecutionStateMachine implements the transition relation proved in unit c05_execution_state over 8-bit fingerprints; pre_execute_transactions, execute_transaction, process_proposal_tx_execution, post_execute_transactions, prepare_commit, construct_checked_txs, data-item parsing, commitments and vote-extension validation are logged stand-ins; StateDelta/Arc/Snapshot carry the step log and the ephemeral objects",
                  "decided blocks contain no fatally failing transaction (C06) and carry honest commitments",
